@@ -839,6 +839,30 @@ impl FailSafe {
     }
 }
 
+/// Verification hooks: read-only view of the fail-safe context and a way to make its timer due.
+#[cfg(rs_matter_verif)]
+impl FailSafe {
+    /// `(fabric index, flag bits, timeout seconds)` of the armed context, `None` when idle.
+    pub fn verif_snapshot(&self) -> Option<(u8, u8, u16)> {
+        match &self.state {
+            State::Idle => None,
+            State::Armed(ctx) => Some((ctx.fab_idx, ctx.flags.bits(), ctx.timeout_secs)),
+        }
+    }
+
+    /// Make the fail-safe timer due: the next `check_failsafe_timeout` sees the timeout as elapsed.
+    pub fn verif_make_due(&mut self) {
+        if let State::Armed(ctx) = &mut self.state {
+            ctx.timeout_secs = 0;
+        }
+    }
+
+    /// The staged root certificate bytes (whatever the flags say).
+    pub fn verif_staged_root(&self) -> &[u8] {
+        &self.root_ca
+    }
+}
+
 impl Default for FailSafe {
     fn default() -> Self {
         Self::new()
